@@ -284,7 +284,9 @@ class PSBT:
                     signature = Signature.parse(sig[:-1])
                     # the last byte of a partial signature is its hash type
                     hash_type = sig[-1]
-                    if psbt_in.prev_out:
+                    if (
+                        psbt_in.prev_out or psbt_in.prev_tx
+                    ) and psbt_in.use_segwit_signature():
                         # segwit
                         z = self.tx_obj.sig_hash_bip143(
                             i,
@@ -1158,8 +1160,17 @@ class PSBTIn:
                 != self.prev_tx.tx_outs[self.tx_in.prev_index].serialize()
             ):
                 raise ValueError("witness UTXO does not match the previous transaction")
-        if self.prev_out:
-            # witness input
+        if (
+            self.prev_out
+            or (script_pubkey and script_pubkey.is_witness_script())
+            or (
+                script_pubkey
+                and script_pubkey.is_p2sh()
+                and self.redeem_script
+                and self.redeem_script.is_witness_script()
+            )
+        ):
+            # witness input (described by either form of its UTXO)
             if not (
                 script_pubkey.is_p2sh()
                 or script_pubkey.is_p2wsh()
@@ -1190,7 +1201,7 @@ class PSBTIn:
                         )
                     s256 = self.redeem_script.commands[1]
                 else:
-                    s256 = self.prev_out.script_pubkey.commands[1]
+                    s256 = script_pubkey.commands[1]
                 if self.witness_script.sha256() != s256:
                     raise ValueError(
                         "WitnessScript sha256 and output sha256 do not match"
@@ -1221,10 +1232,6 @@ class PSBTIn:
                         )
         else:
             # non-witness input
-            if script_pubkey and (
-                script_pubkey.is_p2wpkh() or script_pubkey.is_p2wsh()
-            ):
-                raise ValueError("Non-witness UTXO provided for witness input")
             if self.redeem_script:
                 if not script_pubkey.is_p2sh():
                     raise ValueError("RedeemScript defined for non-p2sh ScriptPubKey")
